@@ -185,6 +185,29 @@ impl Delta {
     pub fn to_json_string(&self) -> Result<String> {
         Ok(serde_json::to_string(&self.to_json())?)
     }
+
+    /// Load status of the delta (verification hook)
+    #[cfg(feature = "verif")]
+    pub fn verif_status(&self) -> &'static str {
+        match self.status {
+            Status::Pending => "pending",
+            Status::Ready => "ready",
+            Status::Applied => "applied",
+            Status::Blocked => "blocked",
+        }
+    }
+
+    /// Parsed change records: (uuid, revision, parent revision) (verification hook)
+    #[cfg(feature = "verif")]
+    pub fn verif_changes(&self) -> Option<Vec<(String, String, Option<String>)>> {
+        self.changes.as_ref().map(|cs| {
+            cs.iter()
+                .map(|Change(u, r, p)| {
+                    (u.clone(), r.to_string(), p.as_ref().map(|p| p.to_string()))
+                })
+                .collect()
+        })
+    }
 }
 
 // Array descriptor represents an array descriptor. It is used to support reconstruction of delta descriptors
@@ -1059,6 +1082,8 @@ impl Melda {
         let all_docs = self.documents.read().unwrap();
         let rtrees: Vec<_> = all_docs.values().collect();
         rtrees.par_iter().for_each(|mtx| {
+            #[cfg(feature = "verif")]
+            crate::verif::trace(4, "");
             let mut tree = mtx.lock().unwrap();
             tree.validate();
         });
@@ -1166,6 +1191,8 @@ impl Melda {
         let all_docs = self.documents.read().unwrap();
         let rtrees: Vec<_> = all_docs.values().collect();
         rtrees.par_iter().for_each(|mtx| {
+            #[cfg(feature = "verif")]
+            crate::verif::trace(4, "");
             let mut tree = mtx.lock().unwrap();
             tree.validate();
         });
@@ -1294,6 +1321,8 @@ impl Melda {
         let all_docs = self.documents.read().unwrap();
         let rtrees: Vec<_> = all_docs.values().collect();
         rtrees.par_iter().for_each(|mtx| {
+            #[cfg(feature = "verif")]
+            crate::verif::trace(4, "");
             let mut tree = mtx.lock().unwrap();
             tree.validate();
         });
@@ -1533,6 +1562,8 @@ impl Melda {
                 .read()
                 .expect("failed_to_acquire_documents_for_reading");
             docs_r.par_iter().for_each(|(uuid, rt)| {
+                #[cfg(feature = "verif")]
+                crate::verif::trace(3, uuid);
                 let rt_r = rt
                     .lock()
                     .expect("failed_to_acquire_revision_tree_for_reading");
@@ -1604,12 +1635,16 @@ impl Melda {
             .par_iter()
             .filter(|(uuid, _)| !extracted_objects.contains_key(*uuid))
             .for_each(|(uuid, _)| {
+                #[cfg(feature = "verif")]
+                crate::verif::trace(1, uuid);
                 self.delete_object(uuid).expect("unable_to_delete_object");
             });
         drop(docs_r);
         // Check for newly created and updated objects
         extracted_objects.into_par_iter().for_each(|(uuid, obj)| {
             //for (uuid, obj) in extracted_objects {
+            #[cfg(feature = "verif")]
+            crate::verif::trace(2, &uuid);
             self.update_object(&uuid, obj)
                 .expect("unable_to_update_object");
         });
@@ -2275,6 +2310,44 @@ impl Melda {
             }
         }
         Ok(())
+    }
+
+    /// All recorded revisions of an object: (revision, parent, staged) (verification hook)
+    #[cfg(feature = "verif")]
+    pub fn verif_revisions(&self, uuid: &str) -> Vec<(String, Option<String>, bool)> {
+        let docs = self.documents.read().unwrap();
+        match docs.get(uuid) {
+            Some(rt) => {
+                let rt = rt.lock().unwrap();
+                let mut v: Vec<(String, Option<String>, bool)> = rt
+                    .get_revisions()
+                    .iter()
+                    .map(|(r, e)| {
+                        (
+                            r.to_string(),
+                            e.get_parent().as_ref().map(|p| p.to_string()),
+                            e.is_staging(),
+                        )
+                    })
+                    .collect();
+                v.sort();
+                v
+            }
+            None => vec![],
+        }
+    }
+
+    /// Reconstructed (un-merged) order of an array descriptor at a revision (verification hook)
+    #[cfg(feature = "verif")]
+    pub fn verif_array_order(&self, uuid: &str, rev: &str) -> Result<Vec<Value>> {
+        let docs = self.documents.read().unwrap();
+        let rt = docs.get(uuid).ok_or_else(|| anyhow!("unknown_document"))?;
+        let rt = rt.lock().unwrap();
+        let rev = Revision::from(rev)?;
+        if !rt.get_revisions().contains_key(&rev) {
+            bail!("invalid object revision");
+        }
+        self.rebuild_array_order(&rev, &rt)
     }
 
     // **********************************************************************
